@@ -334,6 +334,8 @@ func Main(gen Generator) {
 		out := bufio.NewWriterSize(f, 1<<20)
 		p := &pool{}
 		n := 0
+		const maxHangs = 8
+		hangs, skipped := 0, 0
 		emit := func(kind, fn string, args ...string) {
 			if kind == "T" {
 				// oracle table entry for the model runner (e.g. a codec input/output pair
@@ -341,12 +343,25 @@ func Main(gen Generator) {
 				fmt.Fprintf(out, "T\t%s\t%s\n", fn, strings.Join(args, "\t"))
 				return
 			}
+			if hangs >= maxHangs {
+				// the code under test has hung (reproducibly) on maxHangs inputs already: those are
+				// failing inputs; every further hanging case would cost three case timeouts, so the
+				// rest of the run is not executed (never happens on a tree where the property holds)
+				skipped++
+				return
+			}
 			c := Case{Kind: kind, Fn: fn, Args: args}
 			obs := p.exec(c)
+			if obs == "hang" {
+				hangs++
+			}
 			fmt.Fprintf(out, "%s\t=>\t%s\n", c.Head(), obs)
 			n++
 		}
 		gen(NewRng(seed), tier, emit)
+		if skipped > 0 {
+			fmt.Fprintf(os.Stderr, "note: %d cases not executed after %d reproducible hangs\n", skipped, hangs)
+		}
 		p.close()
 		out.Flush()
 		f.Close()
